@@ -941,3 +941,51 @@ def rule_collision_provenance(ctx):
         else:
             r.ok(f"TensorNetwork.{name}[no rename]")
     return r
+
+
+def rule_tid_rebind(ctx):
+    r = RuleResult(
+        "tid-rebind",
+        "each Tensor records, per owning network, the tid under which that network holds it (add_owner / remove_owner); the "
+        "network is notified of later renames under that tid. A method that re-keys `tensor_map` — rebinding the attribute to a newly "
+        "built mapping, or moving an entry to another key — therefore has to re-register the owners (add_owner / remove_owner, or "
+        "by going through pop_tensor / add_tensor); only the constructor, which registers every tensor it adds, may start from an empty map",
+    )
+    CORE = "quimb.tensor.tensor_core"
+    cls = ctx.prog.cls(CORE, "TensorNetwork")
+    n = 0
+    for name, f in sorted(cls.methods.items()):
+        if f.is_alias or isinstance(f.node, ast.Lambda) or f.cls is not cls:
+            continue
+        walk = [x for x in ast.walk(f.node)]
+        rekeys = []
+        for a in walk:
+            if isinstance(a, ast.Assign):
+                for t in a.targets:
+                    if isinstance(t, ast.Attribute) and t.attr == "tensor_map" and isinstance(t.value, ast.Name):
+                        v = a.value
+                        # a plain copy of the same mapping keeps the keys
+                        plain = (isinstance(v, ast.Call) and isinstance(v.func, ast.Attribute) and v.func.attr == "copy" and isinstance(v.func.value, ast.Attribute) and v.func.value.attr == "tensor_map") \
+                            or (isinstance(v, ast.Call) and dotted(v.func) == "dict" and len(v.args) == 1 and isinstance(v.args[0], ast.Attribute) and v.args[0].attr == "tensor_map")
+                        if not plain:
+                            rekeys.append((a, f"rebinds {src_of(t)} to `{src_of(v)[:50]}`"))
+                    # tensor_map[new] = tensor_map.pop(old)
+                    if isinstance(t, ast.Subscript) and isinstance(t.value, ast.Attribute) and t.value.attr == "tensor_map" \
+                            and isinstance(a.value, ast.Call) and isinstance(a.value.func, ast.Attribute) and a.value.func.attr == "pop" \
+                            and isinstance(a.value.func.value, ast.Attribute) and a.value.func.value.attr == "tensor_map":
+                        rekeys.append((a, f"moves an entry: `{src_of(a)[:60]}`"))
+        if not rekeys:
+            continue
+        n += 1
+        registers = any(isinstance(c, ast.Call) and isinstance(c.func, ast.Attribute) and c.func.attr in ("add_owner", "remove_owner", "add_tensor", "pop_tensor", "_add_tensor", "add") for c in walk)
+        construct = f"TensorNetwork.{name}"
+        if registers:
+            r.ok(construct, sample={"method": name, "re-keys": rekeys[0][1], "owners": "re-registered in the same method"})
+        else:
+            a, what = rekeys[0]
+            r.bad(Finding("tid-rebind", construct,
+                          f"{what} without re-registering the tensors' owners: every tensor keeps notifying the network under its old tid, so the next "
+                          "rename (reindex / retag / modify) unlinks and links the wrong entries of ind_map / tag_map",
+                          where=f"{f.module.relpath}:{a.lineno}", operand="tensor_map"))
+    r.floor(n, 1, "methods of TensorNetwork that re-key tensor_map (the constructor)")
+    return r
